@@ -322,6 +322,9 @@ impl<'a> Ctx<'a> {
     // (b) library entry points, composed like crates/cli/src/generate.rs
 
     fn lib_vs_cli(&mut self, files: &Files, cli_out: &RunOut) {
+        if cli_out.code != Some(0) {
+            return; // nothing was generated (already reported as an unexpected verdict)
+        }
         let case = json!({"kind": "lib", "files": files_json(files)});
         let cfg_text = files.iter().find(|(p, _)| p == CONFIG).map(|(_, t)| t.clone()).unwrap_or_default();
         let config = match nvh::real::parse_config_text(&cfg_text) {
@@ -404,7 +407,13 @@ impl<'a> Ctx<'a> {
     // -----------------------------------------------------------------------------------------
     // (c) permuted projects
 
-    fn perm_compare(&mut self, how: &str, a: &Files, b: &Files, opmap: &[(String, String)], base: Option<&RunOut>, faulty: bool) {
+    /// returns the exit code of the permuted project
+    fn perm_compare(&mut self, how: &str, a: &Files, b: &Files, opmap: &[(String, String)], base: Option<&RunOut>, faulty: bool) -> Option<i32> {
+        let code = self.perm_compare_inner(how, a, b, opmap, base, faulty);
+        code
+    }
+
+    fn perm_compare_inner(&mut self, how: &str, a: &Files, b: &Files, opmap: &[(String, String)], base: Option<&RunOut>, faulty: bool) -> Option<i32> {
         let case = json!({"kind": "perm", "how": how, "faulty": faulty, "a": files_json(a), "b": files_json(b), "opmap": opmap});
         let cmd = if faulty { "check" } else { "generate" };
         let ra_owned;
@@ -422,7 +431,7 @@ impl<'a> Ctx<'a> {
         if ra.code != rb.code {
             self.rep.fail("O", &format!("perm:{how}:verdict"), &format!("`{cmd}` exits {:?} on the project and {:?} on the permuted project: {}", ra.code, rb.code,
                 rb.stdout.chars().take(500).collect::<String>()), case);
-            return;
+            return rb.code;
         }
         if faulty {
             // same multiset of diagnostics (message texts)
@@ -436,7 +445,7 @@ impl<'a> Ctx<'a> {
             if ma != mb {
                 self.rep.fail("O", &format!("perm:{how}:diagnostic-set"), &format!("diagnostics differ as a multiset of messages:\n{ma:?}\n---\n{mb:?}"), case);
             }
-            return;
+            return rb.code;
         }
         let mut pairs: Vec<(String, String)> = vec![(OUTPUTS[0].1.into(), OUTPUTS[0].1.into()), (OUTPUTS[1].1.into(), OUTPUTS[1].1.into())];
         for (pa, pb) in opmap {
@@ -476,6 +485,9 @@ impl<'a> Ctx<'a> {
             }
         }
         // server schema: same multiset of lines (definition and member order may follow the source order)
+        if how == "union-member-order" {
+            return rb.code; // the `union U = …` line itself differs
+        }
         if let (Some(x), Some(y)) = (ra.files.get(OUTPUTS[2].1), rb.files.get(OUTPUTS[2].1)) {
             let lines = |v: &Vec<u8>| {
                 let mut l: Vec<String> = String::from_utf8_lossy(v).lines().map(|s| s.to_string()).collect();
@@ -486,6 +498,7 @@ impl<'a> Ctx<'a> {
                 self.rep.fail("O", &format!("perm:{how}:server-graphql:lines"), "server schema differs as a multiset of lines", case.clone());
             }
         }
+        rb.code
     }
 
     fn permutations_of(&mut self, rng: &mut Rng, spec: &Spec, base_files: &Files, base: &RunOut, n: usize) {
@@ -570,9 +583,7 @@ impl<'a> Ctx<'a> {
         let mut accepted = if base.code == Some(0) { 1 } else { 0 };
         for o in &orders {
             let files = layout(o, &[], &single);
-            let before = self.rep.failures.len();
-            self.perm_compare(&how, &base_files, &files, &opmap, Some(&base), false);
-            if self.rep.failures.len() == before && base.code == Some(0) {
+            if self.perm_compare(&how, &base_files, &files, &opmap, Some(&base), false) == Some(0) {
                 accepted += 1;
             }
         }
